@@ -217,3 +217,10 @@ func (r *Recorder) Dump(dir string) error {
 	}
 	return os.WriteFile(filepath.Join(dir, base+".json"), js, 0o644)
 }
+
+// Evaluations returns the number of cases evaluated so far.
+func (r *Recorder) Evaluations() int64 {
+	r.mu.Lock()
+	defer r.mu.Unlock()
+	return r.evals
+}
